@@ -102,6 +102,11 @@ def run(repo, chk):
            "a value is logged into the accumulators only after the `is ABSENT` guard: a declared-but-unset variable is never recorded as a value, "
            "so the completeness test of Total.close cannot be satisfied by a variable that was never bound")
 
+    # a matched level stays pending for deeper calls: values bound in nested matching calls reach the record of the outermost call
+    ok = len(P.keeps) == 1 and conds(P.keeps[0], P.loop) == [f"not {P.sel}.immediate"]
+    chk.ob("R07.3", "overlay.HandlerCollection.proceed:matched-levels-stay-pending", ok, pr.where,
+           "a non-immediate selector level is carried into every callee whether or not it matched here (same accumulator): re-entered nested calls keep contributing their values to the outermost call's record"
+           + (f" (conditions of the carry: {conds(P.keeps[0], P.loop)})" if P.keeps else " (no carry found)"))
     # ---------------- R07.4
     tc = repo.func("interpret.Total.close")
     ftc = facts_of(tc)
